@@ -508,3 +508,37 @@ func deepInputs(r *lib.RNG, n int, maxDepth int) [][]byte {
 	}
 	return out
 }
+
+// megaInputs: the shapes of finding O45 (1 MB and more of one opening token or of one left-nested chain; the tree they
+// describe is a million levels deep). Run in child processes like the other nesting monsters.
+func megaInputs(thorough bool) [][]byte {
+	n := 1000000
+	shapes := []string{
+		"a := " + strings.Repeat("(", n),
+		"a := 1" + strings.Repeat("+1", n/2),
+		"a := b" + strings.Repeat(".c", n/2),
+		"a := " + strings.Repeat("[", n),
+		"a := f" + strings.Repeat("()", n/2),
+		"a := " + strings.Repeat("!", n) + "1",
+		"a := " + strings.Repeat("func(){", n/7),
+		"a := b" + strings.Repeat("[0]", n/3),
+	}
+	if thorough {
+		shapes = append(shapes,
+			"a := "+strings.Repeat("- ", n/2)+"1",
+			"a := "+strings.Repeat("(", n)+"1"+strings.Repeat(")", n),
+			strings.Repeat("if a {", n/6),
+			"if a {}"+strings.Repeat(" else if a {}", n/12),
+			"a := "+strings.Repeat("[", 3*n),
+			"a := "+strings.Repeat("{a:", n/3),
+			"a := "+strings.Repeat("1?", n/2)+"1",
+			"a := "+strings.Repeat("error(", n/6),
+			"a := b"+strings.Repeat("&&b", n/3),
+		)
+	}
+	out := make([][]byte, len(shapes))
+	for i, s := range shapes {
+		out[i] = []byte(s + "\n")
+	}
+	return out
+}
